@@ -1133,6 +1133,10 @@ func TestVerifC18(t *testing.T) {
 		c18hRunHistory(t, out, r, in, ops)
 	}
 
+	// ---- life cycle: request -> ConfigModified -> file -> restart
+	// (zz_verif_C18life_test.go)
+	c18lLifeHistories(t, out, pool, unknown)
+
 	// ---- every zone of the host: configuration documents through
 	// BlockedServices, and update / get through the handlers
 	c18hAllZones(t, out, pool)
